@@ -58,6 +58,14 @@ func (b *verifBody) Read(p []byte) (int, error) {
 				return 0, errVerifBoom
 			case "timeout":
 				return 0, fmt.Errorf("%w: scripted", context.DeadlineExceeded)
+			case "stall":
+				// the registry stops sending: only Pull's read timeout (or a cancellation) ends the request
+				select {
+				case <-b.ctx.Done():
+					return 0, context.Cause(b.ctx)
+				case <-time.After(5 * time.Second):
+					return 0, errors.New("verif: stalled body was never interrupted")
+				}
 			}
 			return 0, io.EOF
 		}
@@ -94,6 +102,7 @@ type verifRT struct {
 	gated    bool
 	arrived  chan *verifGate
 	onAttempt func(i int) // called when attempt i starts (before its manifest is answered)
+	cancel    func()      // cancels the context of the running pull (scripted cancellation)
 }
 
 func verifHexBytes(v any) []byte {
@@ -174,6 +183,13 @@ func (rt *verifRT) RoundTrip(req *http.Request) (*http.Response, error) {
 		if e == nil {
 			return verifErrResp(req, 404, "NO_SCRIPT"), nil
 		}
+		if cn, _ := e["cancel"].(bool); cn {
+			if rt.cancel != nil {
+				rt.cancel()
+			}
+			<-req.Context().Done()
+			return nil, req.Context().Err()
+		}
 		status := int(e["status"].(float64))
 		if status != 200 {
 			return verifErrResp(req, status, "CHUNKSUMS"), nil
@@ -215,6 +231,16 @@ func (rt *verifRT) RoundTrip(req *http.Request) (*http.Response, error) {
 				closed()
 			}
 			return verifErrResp(req, 404, "NO_SCRIPT"), nil
+		}
+		if cn, _ := e["cancel"].(bool); cn {
+			if closed != nil {
+				closed()
+			}
+			if rt.cancel != nil {
+				rt.cancel()
+			}
+			<-req.Context().Done()
+			return nil, req.Context().Err()
 		}
 		status := int(e["status"].(float64))
 		if status/100 != 2 {
@@ -372,7 +398,7 @@ func verifSnap(dir string) map[string]any {
 }
 
 // VerifHandler, when set (by the bridge in package server), runs one "POST /api/pull" through registry.Local.
-var VerifHandler func(rc *Registry, name string) (status int, body string)
+var VerifHandler func(ctx context.Context, rc *Registry, name string) (status int, body string)
 
 func verifPre(cache *blob.DiskCache, dir string, pre []any) {
 	for _, p := range pre {
@@ -429,6 +455,9 @@ func verifPull(c map[string]any) any {
 	rt := &verifRT{attempts: attempts, arrived: make(chan *verifGate, 1024)}
 	rc := &Registry{Cache: cache, HTTPClient: &http.Client{Transport: rt}, MaxStreams: int(c["max_streams"].(float64)),
 		ChunkingThreshold: int64(c["threshold"].(float64))}
+	if ms, ok := c["read_timeout_ms"].(float64); ok {
+		rc.ReadTimeout = time.Duration(ms) * time.Millisecond
+	}
 	name, _ := c["name"].(string)
 	out := map[string]any{"pre_snap": verifSnap(dir)}
 
@@ -518,9 +547,15 @@ func verifPull(c map[string]any) any {
 		// attempt k+1 asks for the manifest (Pull k has returned by then) and at the end
 		var snaps []any
 		var stops []chan struct{}
+		hctx, hcancel := context.WithCancel(context.Background())
+		defer hcancel()
+		rt.cancel = hcancel
 		rt.onAttempt = func(i int) {
 			if i > 1 {
 				snaps = append(snaps, verifSnap(dir))
+			}
+			if i > len(attempts)+3 {
+				hcancel() // a retry loop that does not stop by itself: end the request
 			}
 			for _, s := range stops {
 				close(s)
@@ -534,7 +569,7 @@ func verifPull(c map[string]any) any {
 		}
 		status, body := 0, "no handler"
 		if VerifHandler != nil {
-			status, body = VerifHandler(rc, name)
+			status, body = VerifHandler(hctx, rc, name)
 		}
 		for _, s := range stops {
 			close(s)
@@ -550,29 +585,14 @@ func verifPull(c map[string]any) any {
 
 	var res []any
 	for i := range attempts {
-		a, _ := attempts[i].(map[string]any)
 		ctx, cancel := context.WithCancel(context.Background())
+		rt.cancel = cancel
 		var stop chan struct{}
 		rt.onAttempt = func(k int) {
 			if order := installGates(k); order != nil {
 				stop = make(chan struct{})
 				go runSched(order, stop)
 			}
-		}
-		if n, ok := a["cancel_after"].(float64); ok {
-			// cancel the context once n body bytes have been received (trace update)
-			var got int64
-			var mu sync.Mutex
-			ctx = WithTrace(ctx, &Trace{Update: func(_ *Layer, k int64, err error) {
-				mu.Lock()
-				defer mu.Unlock()
-				if err == nil && k > 0 {
-					got++
-					if got >= int64(n) {
-						cancel()
-					}
-				}
-			}})
 		}
 		rt.mu.Lock()
 		rt.idx = i // the manifest GET of this attempt makes it i+1
